@@ -682,6 +682,30 @@ def _p_version_info_compare(tree, ln, col, det, ctxd):
     return False
 
 
+def _sub_name(n):
+    v = n.value
+    return v.id if isinstance(v, ast.Name) else v.attr if isinstance(v, ast.Attribute) else None
+
+
+def _p_callable_arglist(tree, ln, col, det, ctxd):
+    """An annotation Callable[[a, b, ...], r] whose parameter list has at least two entries (a ParamSpec that is not the
+    only / last entry makes Signature.validate raise)."""
+    for a in annotation_exprs(nodes_at(tree, ln, col)) + annotation_exprs([tree]):
+        for n in ast.walk(a):
+            if isinstance(n, ast.Subscript) and _sub_name(n) == "Callable" and isinstance(n.slice, ast.Tuple) and n.slice.elts and \
+                    isinstance(n.slice.elts[0], ast.List) and len(n.slice.elts[0].elts) >= 2:
+                return True
+    return False
+
+
+def _p_annotated_empty(tree, ln, col, det, ctxd):
+    for a in annotation_exprs(nodes_at(tree, ln, col)) + annotation_exprs([tree]):
+        for n in ast.walk(a):
+            if isinstance(n, ast.Subscript) and _sub_name(n) == "Annotated" and isinstance(n.slice, ast.Tuple) and not n.slice.elts:
+                return True
+    return False
+
+
 def _p_typevar_constraints(tree, ln, col, det, ctxd):
     for n in ast.walk(tree):
         if isinstance(n, ast.Call) and len(n.args) >= 3:
@@ -699,18 +723,18 @@ KNOWN_CLASSES = [
     # Repaired in /repo and therefore no longer classes (a crash with one of these signatures is a NEW violation; their
     # witnesses stay in corpus/C12.jsonl as regression cases): annotCtorCall 0e3888a, whileOutsideFunction 211255f,
     # classKeywordImplicitAny 3858618, sliceLiteralBounds 97cec89, overloadDetailEllipsis 633bfb7, suggestedTypeOfMetaclass fcd36f7, matchValueNotLiteral 9d3b0d2,
-    # constrainedTypeVarBoolability 67ee234, overloadStarArgs 5bac5ce.
+    # constrainedTypeVarBoolability 67ee234, overloadStarArgs 5bac5ce, versionInfoCompareRaises 8c71858, protocolCacheKeyUnhashable 9d530d5.
     # (class, kinds, signature test, syntactic predicate on (tree, lineno, col, detail, ctx))
     ("userCodeRaises", ("internal_error", "raises"), lambda s, d: _user_frames(d), lambda *a: True),
+    ("moduleAnnotationUncaught", ("raises",), lambda s, d: "in build_stacked_scopes" in d.get("description", "") and "in type_from_annotations" in d.get("description", ""),
+     lambda t, ln, col, d, c: any(isinstance(n, ast.AnnAssign) and n.value is not None and isinstance(n.target, ast.Name) for n in t.body)),
+    ("callableParamSpecNotLast", ("internal_error",), lambda s, d: s == ("InvalidSignature", "signature.py::validate"), _p_callable_arglist),
+    ("annotatedEmptyArgs", ("internal_error",), lambda s, d: s == ("ValueError", "annotations.py::_type_from_subscripted_value"), _p_annotated_empty),
     ("unsupportedAnnotNode", ("internal_error",), lambda s, d: s == ("NotImplementedError", "annotations.py::generic_visit"), _p_annot_kind),
     ("metaclassAttrRecursion", ("internal_error",), lambda s, d: s[0] == "RecursionError" and "has_attribute" in s[1],
      lambda t, ln, col, d, c: any(isinstance(n, ast.Attribute) and ((isinstance(n.value, ast.Attribute) and n.value.attr == "__class__") or
                                                                      (isinstance(n.value, ast.Call) and isinstance(n.value.func, ast.Name) and n.value.func.id == "type"))
                                   for n in _under(t, ln, col))),
-    ("versionInfoCompareRaises", ("internal_error",), lambda s, d: s == ("TypeError", "name_check_visitor.py::_visit_single_compare"), _p_version_info_compare),
-    ("protocolCacheKeyUnhashable", ("internal_error",),
-     lambda s, d: s[0] == "TypeError" and "unhashable type" in d.get("tail", "") and "_protocol_positive_cache.get(" in d.get("description", ""),
-     lambda t, ln, col, d, c: bool(nodes_at(t, ln, col))),
     ("newTypeOfNonClass", ("internal_error",), lambda s, d: s == ("AttributeError", "typeshed.py::_get_info_for_name"), _p_newtype_nonclass),
     ("stringAnnotationPosition", ("bad-col", "bad-line"), lambda s, d: True, _p_string_position),
     ("hugeConstantPower", ("timeout",), lambda s, d: True, _p_huge_power),
